@@ -35,3 +35,21 @@ Theorem C01_add_preserves_wf : forall (R : cring) (c : comp R) off s merge c',
   wf c -> wf s -> add c off s merge = Some c' -> wf c' /\ width c' = width c.
 Proof. exact add_wf. Qed.
 Print Assumptions C01_add_preserves_wf.
+
+(* add given an explicit list / tuple of modes: accepted exactly for the consecutive ascending range o, ..., o+k-1, and
+   then it is the add at offset o; permuted, repeated, gapped, short, long, negative and empty ranges are refused *)
+From PV Require Import Model.CircuitX Proofs.CircuitRangeP.
+Theorem C01_explicit_range_accepted_iff_consecutive : forall r k o, (0 < k)%nat ->
+  (range_off r k = Some o <-> r = map Z.of_nat (seq o k)).
+Proof. exact range_off_spec. Qed.
+Print Assumptions C01_explicit_range_accepted_iff_consecutive.
+
+Theorem C01_explicit_range_refused_otherwise : forall r k, (0 < k)%nat ->
+  (forall o, r <> map Z.of_nat (seq o k)) -> range_off r k = None.
+Proof. exact range_off_refuses. Qed.
+Print Assumptions C01_explicit_range_refused_otherwise.
+
+Example C01_explicit_range_examples :
+  range_off [1; 2; 3]%Z 3 = Some 1%nat /\ range_off [0; 2; 1; 3]%Z 4 = None /\ range_off [1; 1; 3]%Z 3 = None /\
+  range_off [1; 3]%Z 2 = None /\ range_off [1; 2]%Z 3 = None /\ range_off [(-1); 0]%Z 2 = None /\ range_off [] 1 = None.
+Proof. exact range_off_examples. Qed.
